@@ -41,6 +41,11 @@ impl Group for PipeGroup {
         let mut opened = 0u64;
         let nops = rng.range(6, 30);
         let big_budget = std::cell::Cell::new(3);
+        // directions that have ended (a FIN was sent for them): nothing more is submitted on them, the opposite
+        // direction of the same stream keeps carrying data (C08)
+        let mut c_ended: Vec<u64> = vec![];
+        let mut s_ended: Vec<u64> = vec![];
+        let halfclose = rng.chance(1, 3);
         for _ in 0..nops {
             let k = rng.below(100);
             let l = if opened == 0 || (opened < nstreams && k < 12) {
@@ -51,6 +56,17 @@ impl Group for PipeGroup {
                 let sid = h + 1;
                 let mut len = if rng.chance(1, 5) { *rng.pick(&CHUNKS) } else { rng.below(40) as usize };
                 if len > 8000 { if big_budget.get() == 0 { len = 17; } else { big_budget.set(big_budget.get() - 1); } }
+                // an ended direction carries nothing more: the op turns into one of the opposite direction
+                let k = match (c_ended.contains(&sid), s_ended.contains(&sid), k) {
+                    (true, false, 0..=34) => 35 + k % 15,
+                    (false, true, 35..=54) => k - 35,
+                    (true, true, 0..=54) => 55 + k % 37,
+                    _ => k,
+                };
+                if halfclose && rng.chance(1, 8) {
+                    if rng.chance(1, 2) && !c_ended.contains(&sid) { c_ended.push(sid); lines.push(format!("pipe c ctl Fin {sid} -")); continue; }
+                    if !s_ended.contains(&sid) { s_ended.push(sid); lines.push(format!("pipe s ctl Fin {sid} -")); continue; }
+                }
                 match k {
                     0..=24 => format!("c write {} {}", sid, hex_compact(&tagged_payload(rng, sid as u8, len))),
                     25..=34 => format!("c send {} {}", h, hex_compact(&tagged_payload(rng, sid as u8, len))),
@@ -95,6 +111,9 @@ impl Group for PipeGroup {
             let mut faults = false;
             // ids opened by the client through `open_stream` (only those are streams of the pipe)
             let mut opened: Vec<u32> = vec![];
+            // (direction, id) whose writer has sent its FIN: the reader of that direction sees end of stream after
+            // every byte, the opposite direction goes on
+            let mut fin_sent: std::collections::BTreeSet<(u8, u32)> = Default::default();
             for line in &case.lines {
                 let toks: Vec<&str> = line.split_whitespace().collect();
                 if toks.first() != Some(&"pipe") { out.obs.push("bad-op".into()); continue; }
@@ -146,6 +165,19 @@ impl Group for PipeGroup {
                             }
                         }
                         out.obs.push(parts.join(" "));
+                        // O (C08): after a full drain the reader of an ended direction has seen end of stream
+                        if !faults {
+                            for (d, sid) in &fin_sent {
+                                // direction d is read by the other node: 0 = client to server (read by s), 1 = server to client (read by c)
+                                let reader_tag = if *d == 0 { "s" } else { "c" };
+                                let n = if *d == 0 { &*sn } else { &*cn };
+                                if let Some(h) = n.handles.iter().position(|hd| hd.stream.id() == *sid) {
+                                    let tag = format!("{reader_tag}{h}=");
+                                    let seen_eof = parts.iter().any(|p| p.starts_with(&tag) && p.ends_with('$'));
+                                    if !seen_eof { out.oracle.push(OracleFail { sig: "fin_not_delivered/stream_reader".into(), detail: format!("stream {sid}: the {} sent its FIN, the reader on the other side has not seen end of stream after a full drain", if *d == 0 { "client" } else { "server" }) }); }
+                                }
+                            }
+                        }
                         // O: after a full drain every stream has delivered exactly what was submitted
                         if !faults {
                             for ((d, sid), w) in &written {
@@ -192,7 +224,12 @@ impl Group for PipeGroup {
                                         }
                                         readb.entry((rd, sid)).or_default().extend_from_slice(&b);
                                     } else if o.starts_with("eof") {
-                                        out.oracle.push(OracleFail { sig: "premature_eof/stream_reader".into(), detail: format!("stream {sid} reported end of stream while open") });
+                                        if !fin_sent.contains(&(rd, sid)) {
+                                            out.oracle.push(OracleFail { sig: "premature_eof/stream_reader".into(), detail: format!("stream {sid} reported end of stream while open") });
+                                        } else if !faults && readb.get(&(rd, sid)).cloned().unwrap_or_default() != written.get(&(rd, sid)).cloned().unwrap_or_default() {
+                                            // O (C08): end of stream only after every byte sent before the close
+                                            out.oracle.push(OracleFail { sig: "eof_before_all_data/stream_reader".into(), detail: format!("stream {sid}: end of stream after {} of {} bytes", readb.get(&(rd, sid)).map(|v| v.len()).unwrap_or(0), written.get(&(rd, sid)).map(|v| v.len()).unwrap_or(0)) });
+                                        }
                                     }
                                     // O: prefix at all times
                                     let r = readb.get(&(rd, sid)).cloned().unwrap_or_default();
@@ -203,6 +240,8 @@ impl Group for PipeGroup {
                                     }
                                 }
                             }
+                            // a FIN for a stream of the pipe ends this node's direction of it (a half-close, not a fault)
+                            ["ctl", "Fin", sid, ..] if sid.parse::<u32>().map(|v| opened.contains(&v)).unwrap_or(false) && o.starts_with("ok") => { fin_sent.insert((dirbit, sid.parse().unwrap())); }
                             ["ctl", c, ..] if *c == "Fin" || *c == "Alert" => { faults = true; }
                             ["close"] | ["eof"] | ["rderr"] | ["budget", ..] => { faults = true; }
                             _ => {}
